@@ -41,6 +41,9 @@ def check(ctx):
     ctx.rule("R5", "pop_nodes_and_vars and copy_nodes_and_vars both detach every node from "
                    "the model and drop the model-owned '_model*' nodes; pop empties the "
                    "model's containers.")
+    ctx.rule("R8", "inputs that build_model attaches to user nodes (seed nodes) are detached "
+                   "again by pop_nodes_and_vars / copy_nodes_and_vars, so that popped or "
+                   "copied nodes can be built into a model again.")
     ctx.rule("R6", "pickling replaces exactly the weak model reference and restores it; "
                    "save_model / load_model use the same serializer in binary mode.")
     ctx.rule("R7", "a node / variable can belong to one model / variable only: the owner "
@@ -237,6 +240,40 @@ def check(ctx):
            if loc == ("a", SELF, "_nodes") and any(is_call(x, "copy.deepcopy") for x in subterms(val))]
     ctx.ob("C15.R5", init, "Model(copy=True) deep-copies nodes and variables jointly before "
                            "attaching them", len(cpy) >= 1)
+
+    # ------------------------------------------------------------------ R8
+    # build-time edits of USER nodes must be undone when the nodes leave the model
+    edits = []
+    for mname, fis in sorted(gb.methods.items()):
+        if not mname.startswith("_add_model"):
+            continue
+        for fi in fis:
+            r = evaluate(repo, fi)
+            for t, nd, cond in r.calls:
+                f = t[1]
+                if t[0] == "call" and f[0] == "a" and f[2] in ("set_inputs", "add_inputs") \
+                        and any(x[0] == "iter" for x in subterms(f[1])):
+                    model_owned = [x for x in subterms(t) if x[0] == "fstr"
+                                   and x[1] and x[1][0] == c("_model_")]
+                    if model_owned:
+                        edits.append((fi, t, nd))
+    ctx.ob("C15.R8", gb, "build steps that attach model-owned inputs to user nodes are "
+                         "known (seed inputs of seeded nodes)", len(edits) >= 1,
+           detail=f"{len(edits)} edit site(s)", nontrivial=False)
+    for fi_, t, nd in edits:
+        for leave in (pop, cp):
+            r = evaluate(repo, leave)
+            undo = [u for u, _, _ in r.calls if u[0] == "call" and u[1][0] == "a"
+                    and u[1][2] in ("set_inputs", "_remove_model_inputs", "_detach_model_inputs")]
+            undo += [u for u, _, _ in r.calls if u[0] == "call" and u[1][0] == "a"
+                     and u[1][2] in ("pop", "__delitem__") and "kwinputs" in pretty(u)]
+            ctx.ob("C15.R8", leave, f"the model-owned input attached to user nodes by "
+                                    f"{fi_.name} is removed again when the nodes leave the "
+                                    f"model (otherwise re-building them finds a reserved "
+                                    f"'_model*' node among the user nodes)", bool(undo),
+                   detail="the returned nodes keep their `seed` input pointing at the popped "
+                          "model's '_model_<name>_seed' node", node=None,
+                   stmt=f"seed input not detached by {leave.name}")
 
     # ------------------------------------------------------------------ R6
     gs = method(repo, node, "__getstate__", own=True)
